@@ -8,7 +8,7 @@ import re
 from . import coqfmt
 from .common import gallina_str, gallina_list, gallina_opt, gallina_bool
 
-HEADER = ("From CV Require Import Base.Str Apath Entry Store Stitch StitchProg Codec Backup Ops Delete Read Inv Conf Valid Truth E2E Healthy History Corr.Run Corr.Trace.\n"
+HEADER = ("From CV Require Import Base.Str Apath Entry Store Stitch StitchProg Codec Backup Ops Delete Read Inv Conf Valid Truth E2E Healthy History Corr.Run Corr.Trace.\nFrom CV Require Full.\n"
           "Local Open Scope N_scope.\n")
 
 BAND_RE = re.compile(r"^b(\d+)$")
@@ -514,6 +514,10 @@ class History:
                               f"&& srcok_b {srcname} && conf_b {self.state} && ainv_b {self.state} && wfparents_b pre {self.state} "
                               f"&& dirswf_b pre {self.state} && rinv_b pre {self.state} then 0 else 7.")
             self.checks.append((name3, f"premises/invariants (SrcSorted, SrcValid, SrcWF, SrcOK, Conf, AInv, WFparents, DirsWF, RInv) at step {self.k}"))
+            if getattr(self, "expect_tree", False):
+                name7 = f"c_{self.cid}_{self.k}_srctree"
+                self.lines.append(f"Definition {name7} : N := if Full.src_treeb {srcname} then 0 else 11.")
+                self.checks.append((name7, f"SrcTree (Full.src_treeb) of the source walk at step {self.k}"))
         if self.expect_uh and op == "backup":
             name6 = f"c_{self.cid}_{self.k}_uh"
             self.lines.append(f"Definition {name6} : N := if healthy_uh_b pre {self.state} then 0 else 10.")
